@@ -244,7 +244,7 @@ def d4_interval_indexing(ctx):
             m = re.search(r"zip\((\w+), (\w+)\)", v)
             cross = bool(m) and m.group(1).startswith("opposing") and m.group(2).startswith("bloc")
         elif ge <= lits:
-            m = re.fullmatch(r"\[frozenset\(\{c\}\) for c in (\w+)\] \+ \[frozenset\(\{c\}\) for c in (\w+)\]", v)
+            m = re.fullmatch(r"\[frozenset\(\{_b0\}\) for _b0 in (\w+)\] \+ \[frozenset\(\{_b1\}\) for _b1 in (\w+)\]", v)
             bloc_first = bool(m) and m.group(1).startswith("bloc") and m.group(2).startswith("opposing")
     ctx.check(cross and bloc_first, f, f.node, "AlternatingCrossover: first num_cross ballots alternate opposing/bloc, the rest list bloc then opposing", "",
               "the crossover / bloc ballot construction or their split changed")
@@ -299,10 +299,10 @@ def d5_cohesion_sampler(ctx):
         # the sum is taken over the values that REMAIN: after both deletions, in the same block, before the renormalisation
         order_ok = bool(dels) and len(tot_st) == 1 and max(d.lineno for d in dels) < tot_st[0].lineno < ren[0].lineno and \
             pm.get(tot_st[0]) is pm.get(dels[0]) is pm.get(ren[0])
-        good = v == "[v / total_value_sum for v in values]" and tot is not None and astx.u(tot) == "sum(values)" and order_ok
+        good = v == astx.A("[v / total_value_sum for v in values]") and tot is not None and astx.u(tot) == "sum(values)" and order_ok
     ctx.check(good, f, ren[0] if ren else f.node, "remaining cohesion values are renormalised by their sum after the deletion", "", "renormalisation after exhausting a slate changed")
     bins = [dv for st, dv in astx.defs_of(f.node, "distribution_bins") if dv is not None]
-    ctx.check(len(bins) == 2 and all(astx.u(b) == "[0] + [sum(values[:i + 1]) for i in range(len(blocs))]" for b in bins), f, bins[0] if bins else f.node,
+    ctx.check(len(bins) == 2 and all(astx.u(b) == astx.A("[0] + [sum(values[:i + 1]) for i in range(len(blocs))]") for b in bins), f, bins[0] if bins else f.node,
               "bins are the cumulative sums of the current values (recomputed after renormalising)", "", "bin computation changed or is not repeated after renormalising")
     # zero-cohesion completion: the remaining slots (one per remaining candidate) are shuffled as slots
     sh = [c for c in astx.calls_in(f.node, "shuffle")]
@@ -332,8 +332,8 @@ def d5_cohesion_sampler(ctx):
 def d6_model_parameters(ctx):
     """Constructor-level wiring the distribution claims rest on."""
     prog = ctx.prog
-    want = ("{bloc: combine_preference_intervals([self.pref_intervals_by_bloc[bloc][b] for b in self.blocs], "
-            "[self.cohesion_parameters[bloc][b] for b in self.blocs]) for bloc in self.blocs}")
+    want = astx.A("{bloc: combine_preference_intervals([self.pref_intervals_by_bloc[bloc][b] for b in self.blocs], "
+                  "[self.cohesion_parameters[bloc][b] for b in self.blocs]) for bloc in self.blocs}")
     seen = {}
     for cname in ("short_name_PlackettLuce", "name_BradleyTerry", "name_Cumulative"):
         f = prog.find_func(f"{cname}.__init__")
@@ -377,7 +377,7 @@ def d6_model_parameters(ctx):
     bl = {bool_key(Normalizer(f.node, inline=False).conj(astx.path_condition(f.node, st, astx.parents(f.node), carried=False))): astx.u(dv)
           for st, dv in astx.defs_of(f.node, "ballot_length") if dv is not None}
     good = bl.get("in('candidates', data)") == "len(data['candidates'])" and \
-        any(v == "sum((len(c_list) for c_list in data['slate_to_candidates'].values()))" for v in bl.values())
+        any(v == astx.A("sum((len(c_list) for c_list in data['slate_to_candidates'].values()))") for v in bl.values())
     call = facts_super(f)
     good = good and call is not None and {k.arg: astx.u(k.value) for k in call.keywords if k.arg}.get("ballot_length") == "ballot_length"
     ctx.check(good, f, f.node, "name-PL ballots are as long as the candidate list", str(bl), f"ballot_length is {bl}")
@@ -416,8 +416,8 @@ def d7_cambridge(ctx):
             defs.setdefault(astx.u(n.targets[0]), []).append((bool_key(N.conj(astx.path_condition(init.node, n, pm, carried=False))), astx.u(n.value)))
     w = dict(defs.get("self.W_bloc", []))
     c = dict(defs.get("self.C_bloc", []))
-    good = w.get("isnone(W_bloc)") == "[bloc for bloc, prop in self.bloc_voter_prop.items() if 0.5 <= prop][0]" and w.get("not isnone(W_bloc)") == "W_bloc" \
-        and c.get("isnone(C_bloc)") == "[bloc for bloc in self.bloc_voter_prop.keys() if bloc != self.W_bloc][0]" and c.get("not isnone(C_bloc)") == "C_bloc"
+    good = w.get("isnone(W_bloc)") == astx.A("[bloc for bloc, prop in self.bloc_voter_prop.items() if 0.5 <= prop][0]") and w.get("not isnone(W_bloc)") == "W_bloc" \
+        and c.get("isnone(C_bloc)") == astx.A("[bloc for bloc in self.bloc_voter_prop.keys() if bloc != self.W_bloc][0]") and c.get("not isnone(C_bloc)") == "C_bloc"
     ctx.check(good, init, init.node, "Cambridge: majority bloc = the bloc with share >= 1/2 unless given; minority bloc = the other one", f"{w} / {c}", f"bloc defaults are {w} / {c}")
     m = dict(defs.get("self.bloc_to_historical", []))
     ctx.check(m.get("True") == "{self.W_bloc: self.historical_majority, self.C_bloc: self.historical_minority}", init, init.node,
@@ -431,10 +431,10 @@ def d7_cambridge(ctx):
     for name in ("prob_ballot_given_bloc_first", "prob_ballot_given_opp_first", "bloc_first_count", "opp_bloc_first_count"):
         dv = astx.unique_def(f.node, name)
         tables[name] = astx.u(dv) if dv is not None else None
-    good = tables["prob_ballot_given_bloc_first"] == "{ballot: freq / bloc_first_count for ballot, freq in ballot_frequencies.items() if ballot[0] == self.bloc_to_historical[bloc]}" \
-        and tables["prob_ballot_given_opp_first"] == "{ballot: freq / opp_bloc_first_count for ballot, freq in ballot_frequencies.items() if ballot[0] == self.bloc_to_historical[opp_bloc]}" \
-        and tables["bloc_first_count"] == "sum([freq for ballot, freq in ballot_frequencies.items() if ballot[0] == self.bloc_to_historical[bloc]])" \
-        and tables["opp_bloc_first_count"] == "sum([freq for ballot, freq in ballot_frequencies.items() if ballot[0] == self.bloc_to_historical[opp_bloc]])"
+    good = tables["prob_ballot_given_bloc_first"] == astx.A("{ballot: freq / bloc_first_count for ballot, freq in ballot_frequencies.items() if ballot[0] == self.bloc_to_historical[bloc]}") \
+        and tables["prob_ballot_given_opp_first"] == astx.A("{ballot: freq / opp_bloc_first_count for ballot, freq in ballot_frequencies.items() if ballot[0] == self.bloc_to_historical[opp_bloc]}") \
+        and tables["bloc_first_count"] == astx.A("sum([freq for ballot, freq in ballot_frequencies.items() if ballot[0] == self.bloc_to_historical[bloc]])") \
+        and tables["opp_bloc_first_count"] == astx.A("sum([freq for ballot, freq in ballot_frequencies.items() if ballot[0] == self.bloc_to_historical[opp_bloc]])")
     ctx.check(good, f, f.node, "Cambridge: bloc-first / opposing-first type tables are the historical frequencies conditioned on the first label, normalised by their own totals", "",
               f"type tables are {tables}")
     ob = astx.unique_def(f.node, "opp_bloc")
@@ -451,8 +451,8 @@ def d7_cambridge(ctx):
     ctx.check(good, f, lps[0] if lps else f.node, "Cambridge: each position of the type takes the next unused candidate of the slate it names (own label -> own slate)", "",
               "ballot assembly from the historical type changed")
     sl = {n: astx.u(astx.unique_def(f.node, n)) if astx.unique_def(f.node, n) is not None else None for n in ("ordered_bloc_slate", "ordered_opp_slate")}
-    ctx.check(sl["ordered_bloc_slate"] == "[c for c in pl_ordering if c in self.slate_to_candidates[bloc]]" and
-              sl["ordered_opp_slate"] == "[c for c in pl_ordering if c in self.slate_to_candidates[opp_bloc]]", f, f.node,
+    ctx.check(sl["ordered_bloc_slate"] == astx.A("[c for c in pl_ordering if c in self.slate_to_candidates[bloc]]") and
+              sl["ordered_opp_slate"] == astx.A("[c for c in pl_ordering if c in self.slate_to_candidates[opp_bloc]]"), f, f.node,
               "Cambridge: the PL ordering is split into the two slates, each keeping its order", str(sl), f"slate orderings are {sl}")
 
 
